@@ -1,6 +1,7 @@
 package plush
 
 import (
+	"errors"
 	"fmt"
 	"unsafe"
 
@@ -69,6 +70,11 @@ func (c *compiler) compile() (string, error) {
 			s := stmt
 			if c.curStmt != nil {
 				s = c.curStmt
+			}
+			var se *stmtError
+			if errors.As(err, &se) && se.stmt != nil {
+				// the failing statement lies in a helper's block
+				s = se.stmt
 			}
 			return "", fmt.Errorf("line %d: %w", s.T().LineNumber, err)
 		}
